@@ -299,11 +299,13 @@ theorem guards_NewMEFPT : Gen.UefiTotalGuards.guards_NewMEFPT =
      "if _ != nil"] := rfl
 
 theorem guards_NewNVarStore : Gen.UefiTotalGuards.guards_NewNVarStore =
-    ["for _.FreeSpaceOffset < _.GUIDStoreOffset", "if _ != nil", "if _ == nil"] := rfl
+    ["for _.FreeSpaceOffset < _.GUIDStoreOffset", "if _ != nil", "if _ == nil",
+     "if _.FreeSpaceOffset > _.GUIDStoreOffset"] := rfl
 
 theorem guards_newNVar : Gen.UefiTotalGuards.guards_newNVar =
     ["if IsErased(_, Attributes.ErasePolarity)", "if _ != nil", "if !_.Header.Attributes.IsValid()",
-     "if _ != nil", "if _ != nil", "if !_.parseDataOnly(_)", "if _ != nil", "if _ != nil"] := rfl
+     "if _ != nil", "if _ != nil", "if !_.parseDataOnly(_)", "if _ != nil", "if _ != nil",
+     "if _.Header.Attributes&NVarEntryExtHeader == 0"] := rfl
 
 theorem guards_NVar_parseHeader : Gen.UefiTotalGuards.guards_NVar_parseHeader =
     ["if _ != nil", "if _.Header.Signature != NVarEntrySignature", "if len(_) < int(_.Header.Size)",
